@@ -127,3 +127,22 @@ Fixpoint mrun (s : mstate) (evs : list mev) (i : N) : verdict * N :=
 
 (* a fresh device: both slots missing (generation 0 in slot 1), nothing written *)
 Definition minit : mstate := mkms 0 1 None None false false 0 true 0.
+
+(* a device that has been used: the newest valid journal slot and metadata generation decoded from
+   the image a recovery starts from (runner/driver.ml decodes them with the model's decoders) *)
+Definition minit_from (gen slot : N) (act : option (list (N * N))) (mg : N) : mstate :=
+  mkms gen slot act None false false mg false 0.
+
+Definition minit_of_image (s0 s1 : option (N * list (N * N))) (m0 m7 : option N) : mstate :=
+  let act (e : list (N * N)) := match e with [] => None | _ => Some e end in
+  let mg := match m0, m7 with
+            | Some a, Some b => N.max a b
+            | Some a, None | None, Some a => a
+            | None, None => 0
+            end in
+  match s0, s1 with
+  | Some (g0, e0), Some (g1, e1) => if g0 <? g1 then minit_from g1 1 (act e1) mg else minit_from g0 0 (act e0) mg
+  | Some (g0, e0), None => minit_from g0 0 (act e0) mg
+  | None, Some (g1, e1) => minit_from g1 1 (act e1) mg
+  | None, None => minit_from 0 1 None mg
+  end.
